@@ -3,6 +3,7 @@ package checkers
 import (
 	"go/ast"
 	"go/token"
+	"go/types"
 
 	"github.com/go-critic/go-critic/checkers/internal/astwalk"
 	"github.com/go-critic/go-critic/linter"
@@ -55,6 +56,13 @@ func (c *sloppyReassignChecker) VisitStmt(stmt ast.Stmt) {
 		return
 	}
 
+	// `x := rhs` needs a right-hand side that has a type of its own:
+	// not an untyped nil, not a generic function that gets its type
+	// arguments from the variable it's assigned to.
+	if !c.hasOwnType(assign.Rhs[0]) {
+		return
+	}
+
 	// TODO(quasilyte): handle not only nil comparisons.
 	eqToNil := &ast.BinaryExpr{
 		Op: token.NEQ,
@@ -72,6 +80,25 @@ func (c *sloppyReassignChecker) VisitStmt(stmt ast.Stmt) {
 			break
 		}
 	}
+}
+
+func (c *sloppyReassignChecker) hasOwnType(rhs ast.Expr) bool {
+	if b, ok := c.ctx.TypeOf(rhs).(*types.Basic); ok && b.Kind() == types.UntypedNil {
+		return false
+	}
+	var id *ast.Ident
+	switch rhs := rhs.(type) {
+	case *ast.Ident:
+		id = rhs
+	case *ast.SelectorExpr:
+		id = rhs.Sel
+	}
+	if id != nil {
+		if _, ok := c.ctx.TypesInfo.Instances[id]; ok {
+			return false
+		}
+	}
+	return true
 }
 
 func (c *sloppyReassignChecker) warnAssignToDefine(assign *ast.AssignStmt, name string) {
